@@ -232,6 +232,19 @@ func sysChild() {
 	out := bufio.NewWriter(os.Stdout)
 	for sc.Scan() {
 		line := sc.Text()
+		if strings.HasPrefix(line, "grpc ") || strings.HasPrefix(line, "proxyreq ") {
+			var ar apiResp
+			if strings.HasPrefix(line, "grpc ") {
+				ar = runGrpc(root, line)
+			} else {
+				ar = runProxyReq(root, line)
+			}
+			bts, _ := json.Marshal(ar)
+			out.Write(bts)
+			out.WriteByte('\n')
+			out.Flush()
+			continue
+		}
 		if strings.HasPrefix(line, "sysdist ") {
 			bts, _ := json.Marshal(runDist(root, line))
 			out.Write(bts)
@@ -590,7 +603,15 @@ func genSys(g gen, o vh.Opts) []string {
 	return lines
 }
 
+// runSys feeds the lines to child processes, a fresh one every 1200 lines (open fraction files of stopped stores are
+// only given back when the process ends)
 func runSys(lines []string, ch *vh.Channel, orc *vh.Oracle, rep *vh.Report, o vh.Opts) {
+	for lo := 0; lo < len(lines); lo += 1200 {
+		runSysBatch(lines[lo:min(lo+1200, len(lines))], ch, orc, rep, o)
+	}
+}
+
+func runSysBatch(lines []string, ch *vh.Channel, orc *vh.Oracle, rep *vh.Report, o vh.Opts) {
 	if len(lines) == 0 {
 		return
 	}
@@ -618,6 +639,11 @@ func runSys(lines []string, ch *vh.Channel, orc *vh.Oracle, rep *vh.Report, o vh
 		}
 		line := lines[i]
 		i++
+		if strings.HasPrefix(line, "grpc ") || strings.HasPrefix(line, "proxyreq ") {
+			orc.Case(line, true, "api-boundary")
+			handleAPI(line, append([]byte(nil), sc.Bytes()...), orc)
+			continue
+		}
 		if strings.HasPrefix(line, "sysdist ") {
 			var br sysResp
 			if err := json.Unmarshal(sc.Bytes(), &br); err != nil {
